@@ -101,9 +101,15 @@ func runC08(c *Ctx) {
 			if r.Chance(1, 2) {
 				b.Checks = append(b.Checks, freshCheck())
 			}
-			tok, err := buildTokenSpec(TokenSpec{Blocks: []Block{b}}, r.Fork())
+			// a chain of 0-7 blocks, so that the envelope's block list and the symbol table sit
+			// at various distances from a capacity boundary when siblings are derived
+			chain := []Block{b}
+			for i, d := 0, Pick(r, []int{0, 0, 1, 2, 3, 3, 5, 6, 7}); i < d; i++ {
+				chain = append(chain, Block{Facts: []Pred{freshFact()}})
+			}
+			tok, err := buildTokenSpec(TokenSpec{Blocks: chain}, r.Fork())
 			if err == nil {
-				toks = append(toks, &famTok{tok: tok, blocks: []Block{b}, name: fmt.Sprintf("t%d", len(toks))})
+				toks = append(toks, &famTok{tok: tok, blocks: chain, name: fmt.Sprintf("t%d", len(toks))})
 			}
 		}
 		newRoot()
